@@ -140,7 +140,7 @@ def run(tier, seed, build=True):
                     if "sigint" not in tr.get("events", []) and x.out != expected_out:
                         return ({"symptom": "stdout-differs"}, "stdout differs between signal-free schedules")
                     return None
-                budget = (12000, 45) if tier == "quick" else (80000, 400)
+                budget = (12000, 45) if tier == "quick" else (40000, 60)
                 if (name != "j1" or epipe) and tier == "quick":
                     budget = (1500, 12)
                 try:
